@@ -1223,6 +1223,11 @@ def contract_result(it, P, A, strict, who):
     n, d = P.shape
     m = A.shape[0]
     bn = run.c11.get('bounds')
+    # precondition of the library Pareto routines: no NaN (a NaN row makes the naive algorithm mark every point dominated)
+    nan_free = lambda X: (z3.And([z3.Implies(t < zi(X.shape[0]), z3.Not(xreal.is_nan(X.at(t, k)))) for t in range(bn[0] if X is P else bn[1]) for k in range(conc(d))]
+                                 + [z3.BoolVal(True)]) if bn is not None and conc(d) is not None else
+                          QA(X.shape[0], lambda t: QA(X.shape[1], lambda k: z3.Not(xreal.is_nan(X.at(t, k))))))
+    run.oblige('VizierC11.callee_pre.%s.no_nan' % who, z3.And(nan_free(P), nan_free(A)) if A is not P else nan_free(P))
     if bn is not None:
         return contract_result_bounded(it, P, A, strict, who, bn)
     rootP, rmP, cP = origin_of(P)
@@ -1859,8 +1864,12 @@ def gbt_post(p):
     if not isinstance(R, SymList):
         return [(pre + '.result_is_a_list', z3.BoolVal(False))]
     fs = getattr(run, 'np_filters', [])
-    if len(fs) != 2 or not fs[1]['arr'].eq(R.arr):
-        return [(pre + '.selection_is_two_mask_filters', z3.BoolVal(False))]
+    if conc(n) is None and (len(fs) != 2 or not fs[1]['arr'].eq(R.arr)):
+        # the proof script below is written for `candidates = trials[has_labels]; result = candidates[mask]`; anything else
+        # leaves the supported shape: a checker error, never a verdict (the bounded model query does not need the script)
+        raise Unsupported('GetBestTrials: the selection is not two boolean-mask filters of the trial list')
+    if conc(n) is not None:
+        fs = [dict(src=None, n=None, cond=None), dict(src=None, n=None, cond=None)]
     f1, f2 = fs
     s1, s2 = f1['src'], f2['src']
     nr, ra, n1 = R.n, R.arr, f1['n']
@@ -1915,7 +1924,8 @@ def gbt_replay(name, path, model, sz):
     if n is None or d is None:
         return None
     rows = array_values(model, g['L'], n, d)
-    trials = [None if any(x != x for x in r) else jsonable([r])[0] for r in rows]       # a NaN label row = a trial without objective values
+    # a NaN label = the trial does not report that metric; all NaN = a trial without objective values (infeasible)
+    trials = [None if all(x != x for x in r) else [None if x != x else jsonable([[x]])[0][0] for x in r] for r in rows]
     return {'mode': 'best_trials', 'obligation': name, 'goals': ['MAXIMIZE'] * d, 'trials': trials}
 
 
